@@ -4,6 +4,7 @@ From Coq Require Import Reals Lra Lia ZArith QArith Bool List Psatz.
 From OV.base Require Import Num.
 From OV.gen Require Import Gen_ScalarRootFind.
 From OV.model Require Import M_C17.
+Import ListNotations.
 Local Open Scope R_scope.
 
 (* ---------- the Newton in-range product test (pure algebra) ---------- *)
@@ -403,5 +404,162 @@ Section Loop.
         * destruct (HN Hb) as (_ & _ & Hcv'). rewrite Hcv' in Hcv.
           rewrite !orb_true_iff, Rltb_true, Rltb_true, Reqb_true in Hcv. tauto.
   Qed.
-(*CONT*)
+
+  (* with x_tol <= 0 (as the J2 update calls it) a bracketed converged run ends with |f| < r_tol or an exact root *)
+  Theorem converged_small_residual x0 b0 b1 v it F dx : x_tol <= 0 -> f b0 * f b1 < 0 ->
+    rtsafe f df x0 b0 b1 n x_tol r_tol = Res (Some v) true it F dx Converged ->
+    Rabs (f v) < r_tol \/ f v = 0.
+  Proof.
+    intros Hxt Hb Hr. pose proof (rtsafe_spec x0 b0 b1) as H. pose proof (init_spec x0 b0 b1) as Hi.
+    pose proof (bracket_invariant x0 b0 b1 Hb) as HI. unfold iterate_of in HI.
+    destruct (init f df x0 b0 b1) as [c0|]; [|rewrite H in Hr; discriminate].
+    destruct H as (c & Hs & [(Hc & Hcv & E)|[(Hc & Hcv & Hge & E)|(Hc & Hz & E)]]); rewrite E in Hr; inversion Hr; subst; clear Hr.
+    destruct (steps_last _ _ Hs) as [->|(p & Hp & Hcp & Hzp & ->)].
+    - exfalso. destruct Hi as (_ & _ & _ & [(_ & A & _)|[(A & _)|(_ & A & _)]]); try congruence; rewrite A in Hb; lra.
+    - apply zoz_false in Hzp. specialize (HI p (ex_intro _ c0 (conj eq_refl Hp))).
+      destruct HI as [_ _ Hfl Hfh _ HFp _].
+      destruct (body_spec p) as (HB & HN & _ & HF' & _).
+      destruct (Classical_Prop.classic (bisect_chosen p)) as [Hbis|Hbis].
+      + destruct (HB Hbis) as (_ & Hr' & Hcv'). rewrite Hcv' in Hcv.
+        rewrite !orb_true_iff, Rltb_true, Rltb_true, Reqb_true in Hcv.
+        destruct Hcv as [[Hq|Hq]|Hq].
+        * exfalso. rewrite Hr' in Hq. assert (c_xh p = c_xl p) by lra. rewrite H in Hfh. lra.
+        * exfalso. pose proof (Rabs_pos (c_dx (body fdf x_tol r_tol p))). lra.
+        * left. rewrite <- HF'. exact Hq.
+      + destruct (HN Hbis) as (_ & Hr' & Hcv'). rewrite Hcv' in Hcv.
+        pose proof (newton_needs_slope p Hzp Hbis) as Hd.
+        rewrite !orb_true_iff, Rltb_true, Rltb_true, Reqb_true in Hcv.
+        destruct Hcv as [[Hq|Hq]|Hq].
+        * right. rewrite Hq. rewrite <- HFp.
+          rewrite Hr' in Hq. assert (Hz0 : - c_F p / c_DF p = 0) by lra.
+          unfold Rdiv in Hz0. apply Rmult_integral in Hz0. destruct Hz0 as [Hz0|Hz0]; [lra|].
+          exfalso. apply (Rinv_neq_0_compat _ Hd). exact Hz0.
+        * exfalso. pose proof (Rabs_pos (c_dx (body fdf x_tol r_tol p))). lra.
+        * left. rewrite <- HF'. exact Hq.
+  Qed.
+
+  (* ---- bisection regime: the width halves, so the iteration cap decides ---- *)
+  Lemma bisection_halves lo hi c : Inv lo hi c -> bisect_chosen c ->
+    let c' := body fdf x_tol r_tol c in
+    Rabs (c_xh c' - c_xl c') = Rabs (c_xh c - c_xl c) / 2 /\ Rabs (c_dx c') = Rabs (c_xh c - c_xl c) / 2.
+  Proof.
+    intros HI Hb c'. destruct (body_spec c) as (HB & _ & _ & HF' & _ & Hl' & Hh' & _).
+    destruct (HB Hb) as (Hdx & Hr & _). fold c' in Hdx, Hr, HF', Hl', Hh'.
+    split.
+    - rewrite Hl', Hh'. destruct (Rlt_dec (c_F c') 0); rewrite Hr;
+      [replace (c_xh c - (c_xl c + (c_xh c - c_xl c) / 2)) with ((c_xh c - c_xl c) / 2) by field
+      |replace (c_xl c + (c_xh c - c_xl c) / 2 - c_xl c) with ((c_xh c - c_xl c) / 2) by field];
+      unfold Rdiv; rewrite Rabs_mult, (Rabs_pos_eq (/ 2)); lra.
+    - rewrite Hdx. unfold Rdiv; rewrite Rabs_mult, (Rabs_pos_eq (/ 2)); lra.
+  Qed.
 End Loop.
+
+(* ---------- continuity: a root of f lies in the final bracket (IVT) ---------- *)
+Theorem root_in_final_bracket (f df : R -> R) x_tol r_tol n x0 b0 b1 v cv it F dx w :
+  continuity f -> f b0 * f b1 < 0 ->
+  rtsafe f df x0 b0 b1 n x_tol r_tol = Res (Some v) cv it F dx w ->
+  exists xl xh z, between xl xh v /\ between xl xh z /\ f z = 0 /\
+                  Rmin b0 b1 <= xl <= Rmax b0 b1 /\ Rmin b0 b1 <= xh <= Rmax b0 b1.
+Proof.
+  intros Hc Hb Hr. destruct (result_in_bracket f df x_tol r_tol n x0 b0 b1 v cv it F dx w Hb Hr) as (_ & xl & xh & Hv & (Hl & Hh) & Bl & Bh).
+  exists xl, xh.
+  destruct (Rle_dec xl xh) as [Hle|Hgt].
+  - destruct (IVT_cor f xl xh Hc Hle ltac:(nra)) as (z & Hz & Hfz). exists z.
+    split; [exact Hv|]. split; [apply between_cases; lra|]. split; [exact Hfz|]. split; assumption.
+  - destruct (IVT_cor f xh xl Hc ltac:(lra) ltac:(nra)) as (z & Hz & Hfz). exists z.
+    split; [exact Hv|]. split; [apply between_cases; lra|]. split; [exact Hfz|]. split; assumption.
+Qed.
+
+(* ---------- exact-arithmetic witnesses: the same generic model run over reduced rationals ---------- *)
+Definition NumQr : Num Q := {|
+  nconst := fun q _ => Qred q;
+  nadd := fun a b => Qred (Qplus a b); nsub := fun a b => Qred (Qminus a b);
+  nmul := fun a b => Qred (Qmult a b); ndiv := fun a b => Qred (Qdiv a b);
+  nopp := fun a => Qred (Qopp a); nabs := fun a => Qred (Qabs.Qabs a);
+  nsqrt := fun _ => 0%Q; nexp := fun _ => 0%Q; nln := fun _ => 0%Q;
+  nltb := Qltb; nleb := Qle_bool; neqb := Qeq_bool |}.
+
+Definition cubeQ : list Q := [1; 0; 0; 0]%Q.       (* x^3 *)
+Definition dcubeQ : list Q := [3; 0; 0]%Q.         (* 3 x^2 *)
+Definition is_nan_by (w : why) (r : @result Q) : bool :=
+  match r with Res None false _ _ _ w' => Z.eqb (why_code w) (why_code w') | _ => false end.
+
+(* default settings (50 iterations, x_tol = 1e-13, r_tol = 0), f = x^3 on [-1, 1], sign change, initial guess 0.3:
+   not converged after 50 iterations -> NaN *)
+Lemma cap_witness :
+  Qlt (@poly Q NumQr cubeQ (-1)%Q * @poly Q NumQr cubeQ 1%Q)%Q 0%Q /\
+  is_nan_by IterCap (@rtsafe Q NumQr (@poly Q NumQr cubeQ) (@poly Q NumQr dcubeQ) (3 # 10)%Q (-1)%Q 1%Q 50 (1 # 10000000000000)%Q 0%Q) = true.
+Proof. split; vm_compute; reflexivity. Qed.
+
+(* same function and bracket, initial guess exactly at the (triple) root: F = 0 and DF = 0 -> the Newton branch computes 0/0 *)
+Lemma zero_over_zero_witness :
+  Qlt (@poly Q NumQr cubeQ (-1)%Q * @poly Q NumQr cubeQ 1%Q)%Q 0%Q /\
+  is_nan_by ZeroOverZero (@rtsafe Q NumQr (@poly Q NumQr cubeQ) (@poly Q NumQr dcubeQ) 0%Q (-1)%Q 1%Q 50 (1 # 10000000000000)%Q 0%Q) = true.
+Proof. split; vm_compute; reflexivity. Qed.
+
+(* ---------- differentiability: what custom_root's tangent solve and the implicit function theorem give ---------- *)
+From Coquelicot Require Import Coquelicot.
+
+Lemma tangent_solve (a y : R) : a <> 0 -> let g := fun t : R => a * t in g (y / g 1) = y.
+Proof. intros H g. unfold g. field. exact H. Qed.
+
+(* if F(x(p), p) = 0 near p0, F is (Frechet) differentiable at (x(p0), p0) with partials a, b, and x is differentiable at p0,
+   then a * x'(p0) + b = 0; with a <> 0 the derivative is -b/a, which is what the tangent solve returns for y = -b *)
+Lemma scalar_ift (F : R -> R -> R) (x : R -> R) (p0 a b dx : R) :
+  locally p0 (fun p => F (x p) p = 0) ->
+  filterdiff (fun xp : R * R => F (fst xp) (snd xp)) (locally (x p0, p0)) (fun h => a * fst h + b * snd h) ->
+  is_derive x p0 dx ->
+  a * dx + b = 0.
+Proof.
+  intros Hz HF Hx.
+  assert (H1 : filterdiff (fun p : R => F (x p) p) (locally p0) (fun h : R => a * (scal h dx) + b * h)).
+  { apply (filterdiff_comp'_2 x (fun p => p) F p0 (fun h => scal h dx) (fun h => h) (fun u v => a * u + b * v)).
+    - exact Hx.
+    - apply filterdiff_id.
+    - exact HF. }
+  assert (H2 : is_derive (fun p : R => F (x p) p) p0 (a * dx + b)).
+  { unfold is_derive. apply filterdiff_ext_lin with (1 := H1). intros h. unfold scal; simpl; unfold mult; simpl. ring. }
+  assert (H3 : is_derive (fun p : R => F (x p) p) p0 0).
+  { apply is_derive_ext_loc with (f := fun _ : R => 0).
+    - revert Hz. apply filter_imp. intros p Hp. symmetry. exact Hp.
+    - apply (is_derive_const (V := R_NormedModule) 0 p0). }
+  apply is_derive_unique in H2. apply is_derive_unique in H3. rewrite H2 in H3. exact H3.
+Qed.
+
+Lemma ift_value (a b dx : R) : a <> 0 -> a * dx + b = 0 -> dx = (- b) / a.
+Proof. intros Ha H. apply Rmult_eq_reg_l with a; [|exact Ha]. field_simplify; [|exact Ha]. lra. Qed.
+
+Lemma ift_with_tangent_solve (F : R -> R -> R) (x : R -> R) (p0 a b dx : R) :
+  locally p0 (fun p => F (x p) p = 0) ->
+  filterdiff (fun xp : R * R => F (fst xp) (snd xp)) (locally (x p0, p0)) (fun h => a * fst h + b * snd h) ->
+  is_derive x p0 dx -> a <> 0 ->
+  dx = (- b) / a /\ (fun t : R => a * t) ((- b) / (fun t : R => a * t) 1) = - b.
+Proof. intros H1 H2 H3 Ha. split; [exact (ift_value a b dx Ha (scalar_ift F x p0 a b dx H1 H2 H3))|exact (tangent_solve a (- b) Ha)]. Qed.
+
+(* ---------- non-vacuity: a bracketed run of the real-number model that converges ---------- *)
+Ltac rb_one :=
+  match goal with
+  | |- context [Rltb ?a ?b] =>
+      first [ replace (Rltb a b) with true by (symmetry; apply Rltb_true; unfold Rabs; repeat destruct (Rcase_abs _); lra)
+            | replace (Rltb a b) with false by (symmetry; apply Rltb_false; unfold Rabs; repeat destruct (Rcase_abs _); lra) ]
+  | |- context [Reqb ?a ?b] =>
+      first [ replace (Reqb a b) with true by (symmetry; apply Reqb_true; lra)
+            | replace (Reqb a b) with false by (symmetry; apply Reqb_false; lra) ]
+  end.
+Lemma nonvacuous_run : exists v it F dx,
+  rtsafe (fun x => x - 1 / 2) (fun _ => 1) 0 0 1 1 1 0 = Res (Some v) true it F dx Converged /\ (0 - 1 / 2) * (1 - 1 / 2) < 0.
+Proof.
+  eexists _, _, _, _. split; [|lra].
+  unfold rtsafe, init, clip, nmin, nmax. unfold_num. q2r. cbn [Z.of_nat Pos.of_succ_nat].
+  repeat (rb_one; cbn [negb andb orb]).
+  cbn [wloop cond loop_cond]. unfold_num. q2r.
+  repeat (rb_one; cbn [negb andb orb]).
+  unfold zero_over_zero. unfold_carry. unfold_num. q2r.
+  repeat (rb_one; cbn [negb andb orb]).
+  unfold body, loop_body, bisection_step, newton_step. unfold_num. q2r.
+  repeat (rb_one; cbn [negb andb orb]).
+  cbn [wloop cond loop_cond]. unfold_num. q2r.
+  repeat (rb_one; cbn [negb andb orb]).
+  unfold loop_cond. unfold_num. q2r. repeat (rb_one; cbn [negb andb orb]).
+  reflexivity.
+Qed.
